@@ -27,6 +27,11 @@ Oracle : history invariants over the global event order of one run (vp/harness/o
       ended during (or in the tick before) the invocation, which may cut it short, or calls of the macro overlap;
       a Call macro that completes without ever getting a `started` state (and had no call in progress to join) is
       judged the same way;
+  S7  bounded response inside repeated bodies, the bound taken from the run itself: a line of an Alarm / Macro body (also
+      inside a Block of that body) which an earlier invocation started `lat` ticks after its reference point (instruction
+      before it completed -- commands/Watch/Alarm: started --, or its scope started) and which, in the latest invocation,
+      has that reference point behind it, must have started lat + 3 ticks later if its scope is still open and no block
+      ended since (`invocation-stalled:<alarm|macro>`); lines with thresholds and Block lines (lock) are not judged;
   S5  blank/comment lines after the last instruction of the method are never reported executed (= passed) by the
       method state at any tick end (being reported `started` for the one tick of their first visit is counted, not
       judged); follow-up on interrupt-free methods (one live edit at the end of the run): a `Mark: zz` appended below
@@ -125,6 +130,14 @@ def _classes(case, info, tr):
             cl.add("ws-between-opener-and-body")
             if l.depth >= 1 and (len(nx.text) - len(nx.text.lstrip(" ")) if nx.text.strip() else len(nx.text)) < 4 * l.depth:
                 cl.add("ws-left-of-a-nested-opener-before-its-body")
+    nstart: dict = {}
+    for e in tr.events:
+        if e[1] == "block_start" and e[2] in prog.block:
+            nstart[prog.block[e[2]]] = nstart.get(prog.block[e[2]], 0) + 1
+    for b, k in nstart.items():
+        rep = prog.repeater(b)
+        if rep and k >= 2:
+            cl.add("block-in-%s-body-ran>=2-times" % rep)
     if any(l.kind in O.WS and (l.node or {}).get("wsi") is not None for l in prog.lines):
         cl.add("ws-with-own-indentation")
     if info["inner_ws_passed"]:
